@@ -83,6 +83,18 @@ def record_and_validate(chk, cases, label, seed=None, max_rounds=8):
     return rejected
 
 
+def capped_sequence(rnd, n, alpha, maxmult=14):
+    """n symbols out of 1..alpha, none more than maxmult times (the pair tables are measured with l' = multiplicity < 16)"""
+    alpha = max(alpha, n // maxmult + 1)
+    seq, cnt = [], {}
+    while len(seq) < n:
+        e = rnd.randint(1, alpha)
+        if cnt.get(e, 0) < maxmult:
+            cnt[e] = cnt.get(e, 0) + 1
+            seq.append(e)
+    return seq
+
+
 def c11_cases(chk, quick):
     rnd = random.Random(chk.seed)
     cases = []
@@ -139,8 +151,13 @@ def c11_cases(chk, quick):
     # sequences of a few thousand elements (buffers, block-wise processing) with a small sketch
     for k in range(2 if quick else 6):
         n = rnd.randint(4200, 5200) if k % 2 == 0 else rnd.randint(8300, 9000)   # beyond 2^12 and beyond 2^13 elements
-        alpha = rnd.randint(300, 900)
-        seq = [rnd.randint(1, alpha) for _ in range(n)]
+        alpha = n // rnd.randint(2, 4)
+        seq, cnt = [], {}
+        while len(seq) < n:                       # multiplicities stay below 15 (the tables are measured with l' = multiplicity < 16)
+            e = rnd.randint(1, alpha)
+            if cnt.get(e, 0) < 14:
+                cnt[e] = cnt.get(e, 0) + 1
+                seq.append(e)
         s2 = list(seq)
         rnd.shuffle(s2)
         cases.append(dict(m=rnd.choice([2, 4]), l=rnd.choice([1, 2]), seqs=[seq, s2]))
@@ -148,7 +165,7 @@ def c11_cases(chk, quick):
     for mm in ([300, 1000] if quick else [257, 300, 1000, 5000, 70000]):
         for _ in range(2 if mm <= 1000 else 1):
             n = rnd.randint(20, 60) if mm <= 1000 else rnd.randint(5, 8)
-            seq = [rnd.randint(1, 12 if mm <= 1000 else 3) for _ in range(n)]
+            seq = capped_sequence(rnd, n, 12 if mm <= 1000 else 3)
             s2 = list(seq)
             rnd.shuffle(s2)
             cases.append(dict(m=mm, l=rnd.choice([1, 2]), seqs=[seq, s2, list(reversed(seq))]))
